@@ -260,7 +260,9 @@ def coq_eval_sharded(workdir, name, header, items, footer_fn, shard=700, timeout
     """items: list of Coq terms (strings), one per case.  Builds files
          header ; Definition cases := [items...]. ; footer_fn()
        per shard, compiles them in parallel, returns list of (rc, out, first_index, count)."""
-    shards = [(i, items[i:i + shard]) for i in range(0, len(items), shard)] or [(0, [])]
+    if not items:                                      # nothing to evaluate (a replay file holding cases of another part only)
+        return []
+    shards = [(i, items[i:i + shard]) for i in range(0, len(items), shard)]
 
     def one(k_sh):
         k, (start, its) = k_sh
